@@ -45,6 +45,38 @@ CHECKS["C01"] = dict(
 
 NOT_YET = {}
 
+# ------------------------------------------------------------------------------------------ C02
+def c02_parts(tier, seed):
+    q = tier == "quick"
+    parts = [
+        P("tree", "c02_position", "seq", ["--part", "tree", "--depth", 3 if q else 4], require=["transpositions", "nontrivial"], deadline_frac=0.8),
+        P("U-3x2", "c02_position", "seq", ["--part", "u3", "--wk", 1 if q else 0, "--depth", 1 if q else 2], require=["states"], deadline_frac=0.8),
+        P("matid", "c02_position", "seq", ["--part", "matid", "--stride", 97 if q else 1], require=["nontrivial"]),
+    ]
+    if not q:
+        parts.append(P("U-EPx2", "c02_position", "seq", ["--part", "uep", "--sliders", 1, "--depth", 2], require=["states"], deadline_frac=0.8))
+        parts.append(P("U-CASTLEx2", "c02_position", "seq", ["--part", "ucastle", "--blockers", 0, "--depth", 2], require=["states"], deadline_frac=0.8))
+    return parts
+
+CHECKS["C02"] = dict(
+    parts=c02_parts,
+    rule="states = nodes of the make/unmake trees (each node is a distinct move history from its root) plus material vectors; transitions = makeMove/unMakeMove "
+         "pairs executed; a history is non-trivial when the node has a capture, promotion or castling move among its legal moves (trees) or a side has >= 6 queens (matid)",
+    alphabet="operations: makeMove, unMakeMove, null-move edits (setWhiteMove/setEpSquare/setHalfMoveClock), toFEN/readFEN, serialize/deSerialize, hashAfterMove, "
+             "MatId::addPiece/addPieceCnt/removePiece; roots: seed list, U-3, U-EP, U-CASTLE",
+    oracle="bit-identical field comparison after unmake; every incremental attribute recomputed from the board (harness code + computeZobristHash on a copy); "
+           "lock-step independent oracle board; FIDE repetition key -> hash map for the hash-equality clause",
+    bound=dict(quick="all move sequences of depth 3 from 30 seeds (incl. seeds reaching 6-8 queens), depth 1 from U-3 (wK files a-d), material vectors thinned by 97",
+               thorough="depth 4 from seeds, depth 2 from U-3/U-EP(Q)/U-CASTLE, all material vector pairs"),
+    assumptions=["pieceTypeBB_[EMPTY] and struct padding are not part of the position's value (ignored by operator==, read by nothing)",
+                 "compact form stores 8/16 bits of the counters: round trip checked for half-move clock <= 255 and full-move counter <= 65535"],
+    technique="explicit-state enumeration of all move/take-back histories to a depth bound on the real Position, from-scratch reference recomputation in every state",
+    level_text="All make/unmake histories up to the depth bound from every root of the seed list and small universes are executed on the real code; each node is checked "
+               "against a from-scratch recomputation and an independent oracle, each unmake against a saved copy. Exhaustive within the bound, which is what a "
+               "history-quantified invariant of a small state machine needs.",
+    level_note="Trusted: the oracle and the harness's from-scratch recomputation; histories longer than the depth bound are covered only as suffixes from many roots.",
+)
+
 CHECKS["C01"].update(
     technique="bounded-exhaustive enumeration of complete small position universes (explicit-state), real move generator vs independent rules oracle",
     level_text="Every position of the stated finite universes (all <=3-men placements, en-passant and castling families, 4-men classes, perft trees "
